@@ -7,7 +7,8 @@ import (
 	"verifharness/internal/vl"
 )
 
-// An abstract path is a list of step tokens: "f<id>" | "i<n>" | "s<hex>" | "*".
+// An abstract path is a list of step tokens: "f<id>" | "i<n>" | "s<hex>" | "*" (all elements / keys) |
+// "F*" (all fields of a struct; kept apart because the code rejects a second '*' on a struct node).
 // It is known BY CONSTRUCTION for grammar-generated paths (never by parsing the string).
 
 type pathGen struct {
@@ -69,7 +70,7 @@ func (g *pathGen) valid(root *Ty) (string, [][]string, bool) {
 			}
 			if g.r.Chance(8) && s.kind(st.Fields[0].Ty) != "invalid" {
 				sb.WriteString(".*")
-				return sb.String(), product(aps, []string{"*"}), viaTd
+				return sb.String(), product(aps, []string{"F*"}), viaTd
 			}
 			f := ok[g.r.Intn(len(ok))]
 			if f.ID >= 0 && g.r.Chance(40) {
@@ -132,7 +133,7 @@ func (g *pathGen) valid(root *Ty) (string, [][]string, bool) {
 
 var alphabet = []byte("$.[]{},*\"\\0123456789afS_-x \x00\n\x80\xff")
 var specials = []string{"99999999999999999999", "3000000000", "2147483648", "9223372036854775807", "9223372036854775808", `"a`, `"a\`, `"a\"`, `"\x41"`, `"é"`, `"\ud800"`, `"\400"`, `"\101"`,
-	"[,]", "{,}", "[*]", "{*}", ".*", "$", `\`, "[1,*]", "[*,1]", "{\"a\",*}", "[", "{", "[1", "{\"a\"", ".f0", ".0", ".-1", "[-1]", "[007]", "\"\xff\"", "\"\xe6\x97\""}
+	"[,]", "{,}", "[\\", "{\\", "[*]", "{*}", ".*", "$", `\`, "[1,*]", "[*,1]", "{\"a\",*}", "[", "{", "[1", "{\"a\"", ".f0", ".0", ".-1", "[-1]", "[007]", "\"\xff\"", "\"\xe6\x97\""}
 
 func (g *pathGen) mutate(p string) string {
 	b := []byte(p)
@@ -223,7 +224,7 @@ func (g *pathGen) query(aps [][]string) []string {
 		}
 		for _, st := range p[:k] {
 			switch {
-			case st == "*":
+			case isStar(st):
 				st = g.randStep()
 			case g.r.Chance(15):
 				switch st[0] {
@@ -268,7 +269,8 @@ func (g *pathGen) decorate(q []string) []string {
 
 // ---------------------------------------------------------------- Sel: the path-set semantics (oracle side)
 
-func stepMatch(p, q string) bool { return p == "*" || p == q }
+func isStar(p string) bool       { return p == "*" || p == "F*" }
+func stepMatch(p, q string) bool { return isStar(p) || p == q }
 
 // selWhite: selected iff the mask is empty or some path agrees with the query on their common length.
 func selWhite(aps [][]string, q []string) bool {
@@ -331,9 +333,12 @@ func noStarConflict(aps [][]string) bool {
 				if pe != qe {
 					return false
 				}
-				ps, qs := p[i] == "*", q[i] == "*"
+				ps, qs := isStar(p[i]), isStar(q[i])
 				if ps != qs {
 					return false
+				}
+				if p[i] == "F*" && q[i] == "F*" {
+					return false // the code answers "field conflicts with previously settled '*'"
 				}
 				if p[i] != q[i] {
 					break
@@ -354,7 +359,7 @@ func flatten(ap [][][]string) [][]string {
 
 func endsWithStar(aps [][]string) bool {
 	for _, p := range aps {
-		if len(p) > 0 && p[len(p)-1] == "*" {
+		if len(p) > 0 && isStar(p[len(p)-1]) {
 			return true
 		}
 	}
@@ -381,7 +386,7 @@ func (w *World) renderSingle(root *Ty, ap []string) (string, bool) {
 		k := s.kind(t)
 		u := s.unwrap(t)
 		switch {
-		case st == "*" && k == "struct":
+		case st == "F*":
 			sb.WriteString(".*")
 			return sb.String(), true
 		case st == "*" && k == "list":
